@@ -57,3 +57,58 @@ SYMCFG_Q = dict(scenario='block_expr', args=dict(policy=expr_profile([OPS, LEAF]
 for p in ('C02', 'C03', 'C06', 'C12', 'C15'):
     PLANS[p] = {'quick': [ALL_D2, OPERANDS_Q], 'thorough': [ALL_D2, OPERANDS_Q, CONTEXTS_Q, OPERANDS_T]}
 PLANS['C05'] = {'quick': [SYMCFG_Q, ALL_D2], 'thorough': [SYMCFG_Q, ALL_D2, OPERANDS_Q]}
+
+
+# ---------------------------------------------------------------------------------------------
+# program-level scenarios
+
+from grammars import StmtPolicy
+from scenario import ProgramScenario
+
+ALL_STMTS = ['Expr', 'Decl:Var', 'Return', 'If', 'Block', 'For', 'ForIn', 'ForOf', 'While', 'DoWhile', 'Switch', 'Try', 'Labeled', 'Throw', 'Decl:Fn', 'Decl:Class', 'Empty']
+SLOT = ['Bin', 'Ident']          # expression slots: a marked `+` or an identifier
+SLOT_LEAF = ['Ident', 'Lit']
+
+
+def stmt_profile(stmt_levels, levels, **kw):
+    d = dict(stmt_levels=stmt_levels, levels=levels, names=['a', 'b'], props=['substring', 'foo'], strs=['s'], max_args=(1, 0, 0), bin_ops=['Add', 'Sub'], assign_ops=['Assign', 'AddAssign'], unary_ops=['Minus', 'Delete'])
+    d.update(kw)
+    return d
+
+
+_prev_make = make_scenario
+
+
+def make_scenario(name, args):
+    if name == 'program':
+        sp = StmtPolicy(**args['policy'])
+        cfg = ConfigSpec(args.get('config', DEFAULT_CFG), prefix=args.get('prefix', 'test'), verbosity=args.get('verbosity', 'Information'))
+        return ProgramScenario(sp, cfg, kinds=args.get('kinds', ('Script',)), prologue=args.get('prologue', True))
+    return _prev_make(name, args)
+
+
+# one top-level item (a block or a function/class declaration ...) holding one statement of every kind, expression slots = `a + b` | identifier
+PLACEMENT_Q = dict(scenario='program', args=dict(policy=stmt_profile([['Block', 'Decl:Fn'], ALL_STMTS, ['Expr', 'Block', 'Return']], [SLOT, ['Ident']], bin_ops=['Add'], names=['a'], op_budget=1, all_present=True), kinds=('Script', 'Module')),
+                   label='program{1 item: block|function}{1 statement of every kind}{nested: expr|block|return}, slots `x + y`|ident, script and module')
+PLACEMENT_T = dict(scenario='program', args=dict(policy=stmt_profile([['Block', 'Decl:Fn', 'If', 'Expr', 'Decl:Class'], ALL_STMTS, ['Expr', 'Block', 'Return', 'If', 'Decl:Var']], [['Bin', 'Ident', 'Call', 'Tpl', 'Arrow', 'Assign'], SLOT_LEAF], block_lens=(1, 2)), kinds=('Script', 'Module')),
+                   label='program{1 item}{1-2 statements of every kind}{nested}, slots +|call|template|arrow|assign, script and module')
+
+for p in ('C04', 'C07'):
+    PLANS[p] = {'quick': [PLACEMENT_Q], 'thorough': [PLACEMENT_Q, PLACEMENT_T]}
+for p in ('C02', 'C03', 'C06', 'C12', 'C15'):
+    PLANS[p]['quick'] = PLANS[p]['quick'] + [PLACEMENT_Q]
+    PLANS[p]['thorough'] = PLANS[p]['thorough'] + [PLACEMENT_Q, PLACEMENT_T]
+
+
+# directive prologues: up to 2 leading string-literal statements (symbolic text and quote style) in the program and in a function body,
+# followed by an instrumented statement
+DIRECTIVES_Q = dict(scenario='program', args=dict(policy=stmt_profile([['Decl:Fn', 'Block'], ['Return', 'Expr']], [['Bin', 'Ident'], ['Ident', 'Call'], ['Ident']], bin_ops=['Add'], names=['a'], strs=['use strict', 'use asm'], quotes=["'", '"'], directives=2, items=(1, 2, 3), fn_body_lens=(1, 2, 3), block_lens=(1,), params=(0,), op_budget=2, all_present=True), kinds=('Script', 'Module')),
+                    label='program with 0-2 leading directives + {block | function with 0-2 leading directives}, directive text in {use strict,use asm} x quote style symbolic, script and module')
+PLANS['C07'] = {'quick': [DIRECTIVES_Q, PLACEMENT_Q], 'thorough': [DIRECTIVES_Q, PLACEMENT_Q, PLACEMENT_T]}
+
+# scope of temporaries: effectful operands (so that temporaries are needed) in parameter defaults, class members, closures
+SCOPE_Q = dict(scenario='program', args=dict(policy=stmt_profile([['Block', 'Decl:Fn'], ['Decl:Fn', 'Decl:Class', 'Expr', 'Return', 'Decl:Var'], ['Return', 'Expr']], [['Bin', 'Arrow', 'Ident'], ['Call', 'Ident', 'Bin'], ['Ident', 'Call'], ['Ident']], bin_ops=['Add'], names=['a'], params=(0, 1), op_budget=3, all_present=True), kinds=('Script',)),
+               label='blocks/functions containing functions (parameter defaults), classes (methods, field initialisers, static blocks), arrows; operands `x + f()` need temporaries')
+for p in ('C06',):
+    PLANS[p]['quick'] = PLANS[p]['quick'] + [SCOPE_Q]
+    PLANS[p]['thorough'] = PLANS[p]['thorough'] + [SCOPE_Q]
